@@ -7,10 +7,11 @@ sys.path.insert(0, os.path.join(V, 'tools'))
 import importlib
 
 ALL = ['C%02d' % i for i in range(1, 21)]
+READY = set(open(os.path.join(V, 'tools', 'ready.txt')).read().split())
 checks, na = [], []
 for pid in ALL:
     p = os.path.join(V, 'props', pid + '.py')
-    if not os.path.exists(p):
+    if not os.path.exists(p) or pid not in READY:
         na.append(dict(property_id=pid, reason='check not built yet in this revision of /verif (planned, see DESIGN.md section 4)'))
         continue
     m = importlib.import_module(pid)
